@@ -871,6 +871,12 @@ where
 
         if self.record.dec_refs(1) == 0 {
             if self.record.properties().phantom().unwrap_or_default() {
+                // A phantom record that was re-materialized from a piece (`insert_piece`, e.g. read back from the disk
+                // cache write queue) has already been handed to the disk cache once. Handing it over again would
+                // enqueue the same version with a newer sequence, which may overtake a later update of the key.
+                if self.source != Source::Outer {
+                    return;
+                }
                 if let Some(listener) = self.inner.event_listener.as_ref() {
                     listener.on_leave(Event::Evict, self.record.key(), self.record.value());
                 }
